@@ -47,19 +47,54 @@ FORBIDDEN = re.compile(
 # small utilities
 
 
-class CaseTimeout(Exception):
-    pass
+class CaseTimeout(BaseException):
+    """Raised inside the implementation when a case exceeds its time limit.  A BaseException so that
+    ``except Exception`` in the code under test cannot swallow it."""
+
+
+# what the implementation is currently running (for the hard-hang exit below)
+_RUNNING: dict = {"pid": None, "case": None, "seed": 0, "tier": "quick", "done": 0}
+HARD_HANG_AFTER = 6  # further timer firings (1 s apart) after the first CaseTimeout was swallowed
+
+
+def _hard_hang() -> None:
+    """The implementation keeps running although CaseTimeout was raised in it several times (a loop that
+    swallows every exception): report the non-termination as a violation with the case as the failing input
+    and leave — nothing else can be done in-process."""
+    pid = _RUNNING.get("pid") or "C??"
+    try:
+        path = write_replay(pid, {"property": pid, "kind": "failing-input", "tag": "hang",
+                                  "reason": "implementation did not terminate within the per-case limit and "
+                                            "swallowed the interruption (busy loop)",
+                                  "case": _RUNNING.get("case"), "impl_observation": "HANG",
+                                  "seed": _RUNNING.get("seed")})
+        n = int(_RUNNING.get("done") or 0) + 1
+        write_evidence(pid, _RUNNING.get("tier") or "quick", int(_RUNNING.get("seed") or 0),
+                       {"evaluations": n, "distinct_nontrivial": n,
+                        "rule": "run aborted: the implementation hung on the case in the replay file",
+                        "samples": [{"case": repr(_RUNNING.get("case"))[:500], "impl": "HANG"}]},
+                       ["run aborted by the hard-hang guard"], 0.0, 1)
+        sys.stdout.write(f"VIOLATION property={pid} replay={path}\n")
+        sys.stdout.flush()
+    finally:
+        os._exit(1)
 
 
 @contextmanager
 def time_limit(seconds: float):
-    """Per-case wall-clock limit for implementation runs (non-termination detection)."""
+    """Per-case wall-clock limit for implementation runs (non-termination detection).  The timer keeps firing
+    every second after the limit: code that catches the first CaseTimeout gets it again; after
+    HARD_HANG_AFTER further firings the run is ended by _hard_hang()."""
+    fired = [0]
 
     def handler(signum, frame):
+        fired[0] += 1
+        if fired[0] > HARD_HANG_AFTER:
+            _hard_hang()
         raise CaseTimeout()
 
     old = signal.signal(signal.SIGALRM, handler)
-    signal.setitimer(signal.ITIMER_REAL, seconds)
+    signal.setitimer(signal.ITIMER_REAL, seconds, 1.0)
     try:
         yield
     finally:
@@ -418,6 +453,7 @@ class Ctx:
 
 
 def safe_impl(spec: Spec, case) -> str:
+    _RUNNING["pid"], _RUNNING["case"] = spec.pid, case
     try:
         with time_limit(spec.case_timeout):
             return spec.impl(case)
@@ -431,6 +467,8 @@ def safe_impl(spec: Spec, case) -> str:
         except BaseException:  # exceptions whose own __str__ raises
             text = "<unprintable>"
         return "CRASH:" + exc_name(e) + ":" + text[:200].replace("\n", " ")
+    finally:
+        _RUNNING["done"] = int(_RUNNING.get("done") or 0) + 1
 
 
 def write_replay(pid: str, payload: dict) -> str:
@@ -477,6 +515,7 @@ def _oracle(spec: Spec, case, obs: str) -> Optional[Failure]:
 def run_spec(spec: Spec, tier: str, seed: int, replay: Optional[str] = None) -> int:
     ctx = Ctx(spec.pid, tier, seed)
     pid = spec.pid
+    _RUNNING.update(pid=pid, seed=seed, tier=tier, done=0)
     known = load_known(pid)
     broken: list[str] = []       # proof obligations / correspondences that no longer check
 
